@@ -331,9 +331,6 @@ def flat_oracle(line, impl, model, ref=None):
             return "unflatten failed on a flat object of valid pointers: " + impl
         if any(i != j and is_prefix(p, q) for i, (p, _) in enumerate(ptrs) for j, (q, _) in enumerate(ptrs)):
             return None                     # conflicting paths: nothing promised, tie only
-        if t[3] == "0" and any(tok.isdigit() and not is_index(tok) for p, _ in ptrs for tok in p):
-            # digits with a leading zero under the default option: judged by the flatrt stream (see the final report); here tie only
-            return None
         got = wire.parse_all(impl[3:])[0]
         for p, v in ptrs:
             r = py_get(got, p)
@@ -345,9 +342,9 @@ def flat_oracle(line, impl, model, ref=None):
     return None
 
 
-# id under which the leading-zero defect of try_unflatten_array is recorded in known_findings.json, if it is recorded rather than
-# repaired (inert while no such entry exists): raw dec_to_integer instead of to_array_index makes "00", "01" array indices.
-UNFLATTEN_LEADING_ZERO_ID = "D85"
+# D87 (fixed in /repo 52dff66): try_unflatten_array read tokens with raw dec_to_integer, so "00", "01" were array indices and
+# {"0":1,"00":2} came back as [1].  The matcher below is inert (no finding carries this id); kept as the description of the class.
+UNFLATTEN_LEADING_ZERO_ID = "D87-unused"
 
 
 def _has_leading_zero_name(v, flat):
